@@ -242,6 +242,26 @@ def list_comprehension(eng, e, st):
     if (len(e.generators) == 1 and not e.generators[0].ifs and isinstance(e.elt, ast.ListComp)
             and len(e.elt.generators) == 1 and not e.elt.generators[0].ifs and not isinstance(e.elt.elt, ast.ListComp)):
         return _matrix_comprehension(eng, e, st)
+    first = e.generators[0]
+    if not eng.simple_expr([first.iter]) and isinstance(first.iter, ast.Call) and st.pure is None:
+        # python evaluates the outermost iterable once, before the loop: do the same (it may allocate, e.g. sorted())
+        import copy as _copy
+        out = []
+        for s2, itv in eng.ev(first.iter, st):
+            if s2.status != "run":
+                out.append((s2, None))
+                continue
+            tmp = f"$comp_iter_{id(e)}"
+            s2.env[tmp] = itv
+            e2 = _copy.copy(e)
+            f2 = _copy.copy(first)
+            f2.iter = ast.copy_location(ast.Name(id=tmp, ctx=ast.Load()), first.iter)
+            e2.generators = [f2] + list(e.generators[1:])
+            res = list_comprehension(eng, e2, s2)
+            for s3, _ in res:
+                s3.env.pop(tmp, None)
+            out.extend(res)
+        return out
     cur, q, raising = eval_generators(eng, e.generators, e.elt, st)
     out = [(r, None) for r in raising]
     if cur is None:
@@ -372,7 +392,20 @@ def b_range(eng, e, st):
         elif len(pos) == 2:
             lo, hi = pos[0].t, pos[1].t
         else:
-            raise _oos("range with step")
+            # range(lo, hi, step): ValueError for step 0; for a positive step the elements are lo + j*step for
+            # 0 <= j < n with n the least count reaching hi (n = 0 iff hi <= lo)
+            lo, hi, step = pos[0].t, pos[1].t, pos[2].t
+            s, bad = eng.split(s, step != 0, "ValueError", e)
+            out.extend((b, None) for b in bad)
+            if s is None:
+                continue
+            if not eng.feasible(s, step > 0) or eng.feasible(s, step < 0):
+                raise _oos("range with a step that may be negative")
+            n = fresh("nrange")
+            s.assume(z3.And(n >= 0, z3.Implies(hi <= lo, n == 0),
+                            z3.Implies(hi > lo, z3.And(n >= 1, lo + (n - 1) * step < hi, lo + n * step >= hi))))
+            out.append((s, Val(Ty("iter"), IterView(n, lambda h, j, lo=lo, step=step: vint(lo + j * step)))))
+            continue
         n = z3.If(hi > lo, hi - lo, 0)
         out.append((s, Val(Ty("iter"), IterView(n, lambda h, j, lo=lo: vint(lo + j)))))
     return out
@@ -825,6 +858,41 @@ def b_list(eng, e, st):
     return out
 
 
+def b_sorted(eng, e, st):
+    """sorted(d) for a local dict: its keys in increasing order"""
+    out = []
+    if e.keywords:
+        raise _oos("sorted with key / reverse")
+    for s, pos, kw in _args(eng, e, st):
+        if s.status != "run":
+            out.append((s, None))
+            continue
+        v = pos[0]
+        if v.ty.kind not in ("dict", "emptydict"):
+            raise _oos(f"sorted({v.ty})")
+        d = eng.as_dict(v)
+        has = d.t[0]
+        kty = d.ty.items[0] if d.ty.items else INT
+        if kty.kind not in ("int", "any"):
+            raise _oos("sorted(dict) with keys that are not integers")
+        r = eng.new_list(s, INT)
+        n = fresh("nkeys")
+        h = s.heap.set_len(r, n)
+        s.heap = h
+        x, q1, q2 = fresh("x"), fresh("q"), fresh("q")
+        idx = z3.Function(f"kidx!{n}", I, I)
+        s.assume(n >= 0)
+        s.assume(forall([q1], z3.Implies(z3.And(q1 >= 0, q1 < n), z3.And(z3.Select(has, h.at(r, q1)), idx(h.at(r, q1)) == q1)),
+                        patterns=[h.at(r, q1)]))
+        s.assume(forall([q1, q2], z3.Implies(z3.And(q1 >= 0, q1 < q2, q2 < n), h.at(r, q1) < h.at(r, q2)),
+                        patterns=[z3.MultiPattern(h.at(r, q1), h.at(r, q2))]))
+        s.assume(forall([x], z3.Implies(z3.Select(has, x), z3.And(idx(x) >= 0, idx(x) < n, h.at(r, idx(x)) == x)),
+                        patterns=[idx(x)]))
+        s.aux["last_sorted_index"] = idx
+        out.append((s, r))
+    return out
+
+
 def b_hash(eng, e, st):
     out = []
     for s, pos, kw in _args(eng, e, st):
@@ -843,6 +911,11 @@ def b_hash(eng, e, st):
 
 def b_print(eng, e, st):
     return [(st, VNONE)]
+
+
+def b_str(eng, e, st):
+    """str(x): an opaque string"""
+    return [(s, Val(STR, None) if s.status == "run" else None) for s, pos, kw in _args(eng, e, st)]
 
 
 def b_perf_counter(eng, e, st):
@@ -875,6 +948,8 @@ BUILTINS = {
     "set": b_set,
     "list": b_list,
     "hash": b_hash,
+    "sorted": b_sorted,
+    "str": b_str,
     "print": b_print,
 }
 
